@@ -337,9 +337,94 @@ pub fn big_message_corpus(prop: &str, extra_polls: usize) -> Vec<Scenario> {
     v
 }
 
+/// List responses in which one element is so long that it ends exactly 2^8 or 2^16 bytes behind an
+/// earlier structural boundary of the same message (message start, value-list TLF, start of each
+/// entry), while the list declares more entries than are present: a position kept in a narrower
+/// integer wraps onto a boundary at which parsing can go on.  The long element is the value or the
+/// signature of the last entry; the file ends right behind it or goes on with the (re-sealed) rest.
+pub fn wrap_aligned_corpus(prop: &str, extra_polls: usize) -> Vec<Scenario> {
+    use crate::smlref::{RBody, REntry, RMsg, RValue};
+    let mut v = Vec::new();
+    let mut rng = Rng::new(0xA116);
+    let small = |i: usize| REntry {
+        name: Hx(vec![1, 0, i as u8, 8, 0, 0xff][..(2 + 2 * (i % 3))].to_vec()),
+        status: None,
+        val_time: None,
+        unit: if i % 2 == 1 { Some(30) } else { None },
+        scaler: None,
+        value: if i % 3 == 0 { RValue::U8(i as u8) } else { RValue::U32(0x0102_0304 + i as u32) },
+        sig: None,
+    };
+    const K: usize = 3;
+    // body with a long element of `l` bytes and a value list that declares `declared` entries
+    let build = |rng: &mut Rng, l: usize, in_sig: bool, declared: usize| -> Option<(Vec<u8>, Vec<usize>, usize)> {
+        let mut entries: Vec<REntry> = (0..K).map(small).collect();
+        let long = Hx((0..l).map(|i| (i % 253) as u8).collect());
+        let mut e = small(K);
+        if in_sig {
+            e.sig = Some(long);
+        } else {
+            e.value = RValue::Bytes(long);
+        }
+        entries.push(e);
+        let m = RMsg {
+            tid: Hx(vec![1, 2, 3]),
+            group: 0,
+            abort: 0,
+            body: RBody::GetList { client_id: None, server_id: Hx(vec![9]), list_name: None, sensor_time: None, entries, sig: None, gateway_time: None },
+        };
+        let mut body = smlgen::encode_body(&m, rng, &smlgen::Profile::plain());
+        let sites = smlgen::walk_sites(&body);
+        let site = sites.iter().find(|s| s.ty == smlgen::TY_LIST && s.depth == 3 && s.len == K + 1)?.clone();
+        body.splice(site.off..site.off + site.tlf_size, smlgen::tlf(smlgen::TY_LIST, declared, 0));
+        let sites = smlgen::walk_sites(&body);
+        let entry_sites: Vec<&smlgen::Site> = sites.iter().filter(|s| s.ty == smlgen::TY_LIST && s.depth == 4 && s.off > site.off).collect();
+        if entry_sites.len() != K + 1 {
+            return None;
+        }
+        let mut bounds = vec![0usize, site.off];
+        bounds.extend(entry_sites.iter().map(|s| s.off));
+        Some((body, bounds, entry_sites[K].end))
+    };
+    for in_sig in [false, true] {
+        for declared in [K + 2, K + 4, 0x10_0000usize] {
+            for w in [1usize << 8, 1 << 16] {
+                for bi in 0..K + 3 {
+                    // find the length for which the long entry ends at w + bounds[bi]
+                    let mut l = w;
+                    let mut found = None;
+                    for _ in 0..6 {
+                        let Some((body, bounds, end)) = build(&mut rng, l, in_sig, declared) else { break };
+                        let want = w + bounds[bi];
+                        if end == want {
+                            found = Some((body, end));
+                            break;
+                        }
+                        let nl = l as i64 + want as i64 - end as i64;
+                        if nl < 0 {
+                            break;
+                        }
+                        l = nl as usize;
+                    }
+                    let Some((body, end)) = found else { continue };
+                    let note = format!("msg0:wrap-aligned(long-{}={},end=2^{}+boundary{},declared={})", if in_sig { "signature" } else { "value" }, l, w.trailing_zeros(), bi, declared);
+                    // the file ends right behind the long entry
+                    v.push(Scenario::File(FileScn { prop: prop.into(), sub: "wrap-aligned".into(), msgs: vec![MsgScn { body: Hx(body[..end].to_vec()), seal: Seal::None }], post: vec![], extra_polls, notes: vec![note.clone()] }));
+                    // ... or goes on with the rest of the message, re-sealed
+                    if bi % 2 == 0 {
+                        v.push(Scenario::File(FileScn { prop: prop.into(), sub: "wrap-aligned".into(), msgs: vec![MsgScn { body: Hx(body), seal: Seal::Good }], post: vec![], extra_polls, notes: vec![note] }));
+                    }
+                }
+            }
+        }
+    }
+    v
+}
+
 pub fn enum_corpus(prop: &str, tier: Tier, extra_polls: usize) -> Vec<Scenario> {
     {
         let mut v = declared_count_corpus(prop, extra_polls);
+        v.extend(wrap_aligned_corpus(prop, extra_polls));
         if !cfg!(debug_assertions) {
             // (the unoptimised build of the simulator spends most of a minute per megabyte)
             v.extend(big_message_corpus(prop, extra_polls));
